@@ -116,12 +116,16 @@ int run_c07(verif::Args const& args, verif::Report& rep)
         int nthreads = rng.pick(std::vector<int>{2, 2, 3, 4, 4, 8, 16});
         int nevents = std::min<int>(spec.max_events, nthreads * int(rng.integer(1, 3)));
         double emax = rng.pick(std::vector<double>{3, 10, 30});
-        bool construct_in_thread = rng.coin(0.6);
+        // 0: steppers built up front; 1: built inside the threads right after a common barrier;
+        // 2: built inside the threads, staggered (thread k builds its stepper only after thread
+        //    k-1 finished its first event -- celer-sim's lazy per-thread transporter)
+        int construct_mode = int(rng.integer(0, 2));
+        bool construct_in_thread = construct_mode != 0;
         int assign = int(rng.integer(0, 2));  // 0 round robin, 1 dynamic queue, 2 all-to-one
         bool debug_logging = rng.coin(0.15);
         json ctx = {{"case", c}, {"seed", cseed}, {"problem", spec.to_json()}, {"threads", nthreads},
-                    {"events", nevents}, {"construct_in_thread", construct_in_thread}, {"assignment", assign}};
-        std::string const cell = "t" + std::to_string(nthreads) + (construct_in_thread ? "/lazy" : "/upfront")
+                    {"events", nevents}, {"construct_mode", construct_mode}, {"assignment", assign}};
+        std::string const cell = "t" + std::to_string(nthreads) + (construct_mode == 0 ? "/upfront" : construct_mode == 1 ? "/lazy" : "/lazy-staggered")
                                  + "/assign" + std::to_string(assign) + "/" + family + "/" + spec.along;
 
         try
@@ -220,6 +224,9 @@ int run_c07(verif::Args const& args, verif::Report& rep)
 
                 std::atomic<int> next{0};
                 std::atomic<int> ready{0};
+                std::vector<std::atomic<int>> first_done(nthreads);
+                for (auto& fd : first_done)
+                    fd.store(0);
                 std::vector<std::map<int, std::uint64_t>> thash(nthreads);
                 std::vector<std::string> terror(nthreads);
                 std::vector<int> tcapped(nthreads, 0);
@@ -230,12 +237,16 @@ int run_c07(verif::Args const& args, verif::Report& rep)
                         ready.fetch_add(1);
                         while (ready.load() < nthreads)
                             std::this_thread::yield();
+                        if (construct_mode == 2 && t > 0)
+                            while (first_done[t - 1].load() == 0)
+                                std::this_thread::yield();
                         if (construct_in_thread)
                             make_stepper(t);
                         HistoryRecorder rec(cprob->action_labels);
                         auto do_event = [&](EventWork const& w) {
                             if (!run_event(*cprob, *steppers[t], w, rec, 100000))
                                 tcapped[t] = 1;
+                            first_done[t].store(1);
                         };
                         if (assign == 0)
                         {
@@ -253,11 +264,13 @@ int run_c07(verif::Args const& args, verif::Report& rep)
                                 for (auto const& w : work)
                                     do_event(w);
                         }
+                        first_done[t].store(1);
                         for (auto const& kv : rec.events())
                             thash[t][kv.first] = kv.second.hash();
                     }
                     catch (std::exception const& e)
                     {
+                        first_done[t].store(1);
                         terror[t] = e.what();
                     }
                 };
